@@ -52,7 +52,14 @@ extra8 = (" In this round write ALGORITHM-LEVEL shortcuts and CONTRACT DRIFT bet
           "only one of them is changed, so that they disagree for particular configurations only. At least TWO of the three mutants must "
           "be of kinds (1) or (2), each must still satisfy (a) and (b), and none may be a plain comparison-operator slip at the most "
           "central line.")
-extra = extra8 if rnd.startswith("r8") else extra7 if rnd.startswith("r7") else extra6 if rnd.startswith("r6") else extra4 if rnd.startswith("r4") else extra3 if rnd.startswith("r3") else "" if not rnd else (" In this round prefer the LESS obvious sites: helper and utility code, validation, base classes, "
+extra9 = (" In this round produce only TWO mutants (m1, m2), both of the REALLY-HARD-TO-NOTICE kind: each must need a CONJUNCTION of at "
+          "least two unusual conditions to manifest - a boundary size AND a tie, a non-default option AND a particular data shape, a "
+          "particular call sequence AND a particular configuration, a rarely used input form AND a boundary value - so that a random "
+          "tester drawing typical inputs (typical sizes, default-ish options, generic real-valued data) hits it in fewer than about 1 "
+          "in 1000 trials. Estimate that rate with a quick random experiment through the public API and report the estimate and how "
+          "you measured it in notes.md. The two mutants must attack different mechanisms of the property. Wherever this brief says "
+          "THREE mutants or m1..m3, read TWO and m1..m2.")
+extra = extra9 if rnd.startswith("r9") else extra8 if rnd.startswith("r8") else extra7 if rnd.startswith("r7") else extra6 if rnd.startswith("r6") else extra4 if rnd.startswith("r4") else extra3 if rnd.startswith("r3") else "" if not rnd else (" In this round prefer the LESS obvious sites: helper and utility code, validation, base classes, "
                             "penalty / threshold construction, conversions, caching and state handling, parameter plumbing between "
                             "classes - rather than the most central line of the main algorithm loop - and make at least TWO of the "
                             "three mutants need a rare input or boundary configuration to manifest.")
